@@ -1,6 +1,7 @@
 package props
 
 import (
+	"context"
 	"errors"
 	"fmt"
 	"testing"
@@ -244,7 +245,15 @@ func TestC10NeverWedges(t *testing.T) {
 		}
 		var script []sim.DialOutcome
 		for i := 0; i < fails; i++ {
-			switch rapid.IntRange(0, 3).Draw(rt, "how") {
+			switch rapid.IntRange(0, 4).Draw(rt, "how") {
+			case 4:
+				// a Dialer of its own making: it raced two addresses and
+				// cancelled the loser, or ran into its own time limit
+				script = append(script, sim.DialOutcome{Kind: sim.DialErr, Err: rapid.SampledFrom([]error{
+					fmt.Errorf("dial backup address: %w", context.Canceled),
+					fmt.Errorf("dial: %w", context.DeadlineExceeded),
+					context.DeadlineExceeded,
+				}).Draw(rt, "dialerError")})
 			case 0:
 				script = append(script, sim.DialOutcome{Kind: sim.DialErr})
 			case 1:
